@@ -72,7 +72,7 @@ int sizes_around(int *out, int max, const int *thr, int nthr, int lo, int hi) {
 }
 
 const char *opt_val(const shard_t *s, const char *key) {
-  static char buf[256]; char pat[64]; const char *p, *e;
+  static char buf[4096]; char pat[64]; const char *p, *e;
   snprintf(pat, sizeof pat, ",%s=", key); p = strstr(s->opts, pat);
   if (!p) return NULL; p += strlen(pat); e = strchr(p, ','); if (!e) e = p + strlen(p);
   snprintf(buf, sizeof buf, "%.*s", (int)(e - p), p); return buf;
